@@ -14,14 +14,12 @@ try:
     if p.returncode != 0:
         print("PATCH FAILED", p.stdout, p.stderr)
         sys.exit(2)
-    env = dict(os.environ, REPO=tmp)
+    env = dict(os.environ, REPO=tmp, VERIF_EVIDENCE_DIR=os.path.join(tmp, "evidence"))
     for prop in props:
         r = subprocess.run([os.path.join(HERE, "check"), prop], capture_output=True, text=True, env=env, cwd=HERE)
         lines = [l for l in r.stdout.splitlines() if l.startswith(("VIOLATION", "KNOWN", prop))]
         print("== %s exit=%d" % (prop, r.returncode))
-        for l in lines[:12]:
+        for l in lines[:60]:
             print("   ", l[:220])
 finally:
-    shutil.rmtree(tmp, ignore_errors=True)
-    # evidence files were rewritten against the scratch copy: restore the committed ones
-    subprocess.run(["git", "-C", HERE, "checkout", "--", "evidence"], capture_output=True)
+    shutil.rmtree(tmp, ignore_errors=True)      # evidence of these runs went to the scratch directory
